@@ -48,6 +48,10 @@ class Mappers:
                 return dataclasses.replace(o)   # a new, equal object
             return o
         if "str" in data:
+            # a string node reaches the mapper only in its dict form, i.e. together with a custom data_id and / or a kind; a
+            # plain string entry is the loader's business (a mapper written for the application's objects need not know it)
+            if len(data) == 1:
+                raise ValueError(f"the deserialization mapper was called for a plain string entry: {data}")
             return data["str"]
         if "data" in data:      # to_dict() form of a plain string node
             return data["data"]
